@@ -49,7 +49,7 @@ NumCmds ==
   \cup {<<c, k1, n>> : c \in {L_incrby, L_decrby}, n \in {<<53>>, <<45,49>>, <<97>>, BigStr(Int64Max), BigStr(Int64Min), <<>>}}
   \* float arithmetic on its own key so that operands stay in the exactly-representable subset (DESIGN.md 2.4)
   \cup {<<L_set, K1, v>> : v \in FloatVals} \cup {<<L_get, K1>>}
-  \cup {<<L_incrbyfloat, K1, n>> : n \in {<<49,46,53>>, <<45,48,46,53>>, <<97>>, <<50>>, <<48,46,50,53>>}} \cup {<<L_incrbyfloat, kl, <<49>>>>}
+  \cup {<<L_incrbyfloat, K1, n>> : n \in {<<49,46,53>>, <<45,48,46,53>>, <<97>>, <<50>>, <<48,46,50,53>>, L_inf, L_minus_inf, L_nan}} \cup {<<L_incrbyfloat, kl, <<49>>>>}
   \cup {<<L_incr>>, <<L_incrby, k1>>, <<L_incrbyfloat, K1>>, <<L_decrby, k1, <<49>>, <<49>>>>}
 \* integers on k: |n| <= 12 or one of the seeded values; exact decimals on K: -1 < x < 5, at most one fractional digit
 SmallDec(v, lo, hi) == LET p == ParseDec(v) IN p.ok /\ ~p.corner /\ p.sc <= 1 /\ Len(v) <= 3
